@@ -3,6 +3,7 @@
 Legs
   bridge   real `mol_to_graph(graph_to_mol(g, ignore_aam))` against the Lean model `C19.bridge`
            (exact wire comparison) and against the proved-sound semantic spec `C19.BridgeSpec`
+           (which the model output satisfies by theorem `C19.bridge_spec_holds`; hypotheses checked per case)
            (same atoms in order, same bonded pairs with the same orders, same map numbers);
            labelled nodes must be refused with ValueError.
   smiles   `graph_to_smiles` -> `smiles_to_graph` on neutral RDKit-valid molecules from a small
@@ -310,8 +311,16 @@ def wl_leg(r, n_batches):
 
 # ---------------------------------------------------------------------------
 def tally(r, outs):
-    """the model's own output must pass the semantic spec (BridgeSpec (normalise g) is validated here, not proved)"""
+    """the model's own output must pass the semantic spec (proved: C19.bridge_spec_holds; re-validated here per case);
+    every bridge input must satisfy the hypotheses of C19.bridge_spec_holds / bridge_lossless (extra `wf=`:
+    C11.wellFormed && C11.simple — true of every simple undirected networkx graph)"""
     for o in outs:
+        if o.ok_reply and "wf=0" in o.extra:
+            r.count("inputs-violating-theorem-hypotheses(wf)")
+            r.notes["bad_wf"] = r.notes.get("bad_wf", 0) + 1
+            r.notes.setdefault("bad_wf_example", o.case.line()[:400])
+        elif o.ok_reply and "wf=1" in o.extra:
+            r.count("inputs-satisfying-theorem-hypotheses(wf)")
         if o.ok_reply and "closed=0" in o.extra:
             r.count("inputs-outside-edgesClosed-hypothesis")
         elif o.ok_reply and "closed=1" in o.extra:
@@ -355,6 +364,12 @@ def run(tier, seed):
     if r.notes.get("wl_partition_mismatch"):
         r.extra_cov["wl_partition_mismatch"] = r.notes["wl_partition_mismatch"][:3]
     r.extra_cov["escalated"] = bool(proofs_broken)
+    bad_wf = r.notes.get("bad_wf", 0)
+    r.extra_cov["inputs_violating_theorem_hypotheses"] = bad_wf
+    if bad_wf:
+        r.violation_lines.append("ERROR property=C19 %d bridge inputs are not well-formed simple graphs "
+                                 "(hypotheses of C19.bridge_lossless; harness defect); e.g. %s"
+                                 % (bad_wf, r.notes.get("bad_wf_example")))
     r.assumptions = [
         "RDKit RWMol contract (assumed, exercised by every bridge case): AddAtom returns the running index, GetAtoms/GetBonds iterate in insertion order, "
         "Atom(sym).GetSymbol() = sym for element symbols, GetAtomMapNum() = the number set or 0, GetMol() without sanitisation changes nothing",
@@ -371,7 +386,8 @@ def run(tier, seed):
              "compare: renumbered/perturbed copies in batches of 16; non-trivial = bridge inputs with at least one bond (distinct by request), "
              "distinct written SMILES with > 2 atoms, distinct WL batches",
         checker_cmd="cd lean && lake build FGVerif.Proofs.C19 && lake env lean FGVerif/Audit/C19.lean",
-        explanation="theorems in lean/FGVerif/Proofs/C19.lean about Model/C19.lean (bridge_roundtrip, refuses_labels, bond_tables_inverse and sym_table on the "
+        explanation="theorems in lean/FGVerif/Proofs/C19.lean about Model/C19.lean (bridge_roundtrip, bridge_spec_holds, bridge_lossless "
+                    "(hypotheses C11.wellFormed/C11.simple evaluated by the driver on every case), refuses_labels, bond_tables_inverse and sym_table on the "
                     "regenerated tables, specCheck_sound, wl_invariant); model tied to fgutils.rdkit by exact wire-level differential testing; semantic spec "
                     "C19.BridgeSpec applied to every implementation output; SMILES round trip and mol_compare exercised on the implementation")
 
